@@ -1160,26 +1160,197 @@ def egg_search_total(ctx, rep, rule):
 
 def float_parameter_range(ctx, rep, rule):
     ix = ctx.ix
-    v = _method(ix, "jaqalpaq.core.parameter.Parameter", "validate")
-    rep.rule(rule, "a float parameter accepts an integer only if it can be represented as a float (tested under a handler for OverflowError)", floor=1)
-    cons = construct_of(v, "float-range")
+    P = "jaqalpaq.core.parameter.Parameter"
+    v = _method(ix, P, "validate")
+    rep.rule(rule, "a float parameter accepts an integer -- given directly or through a (chain of) constant(s) -- only if it can be represented as a float (float() under a handler for OverflowError, directly or in a helper method)", floor=1)
     val = v.params[1]
     branch = None
     for st in ast.walk(v.node):
         if isinstance(st, ast.If) and isinstance(st.test, ast.Compare) and "FLOAT" in ast.unparse(st.test.comparators[0]) and ".kind" in ast.unparse(st.test.left) and isinstance(st.test.ops[0], ast.Eq):
             branch = st
     if branch is None:
-        rep.undecided(rule, cons, "FLOAT branch not found", v.loc())
+        rep.undecided(rule, construct_of(v, "float-range"), "FLOAT branch not found", v.loc())
         return
-    accepts_int = any(isinstance(c, ast.Call) and isinstance(c.func, ast.Name) and c.func.id == "isinstance" and "int" in ast.unparse(c.args[1]) for b in branch.body for c in ast.walk(b))
-    conv = [c for b in branch.body for c in ast.walk(b) if isinstance(c, ast.Call) and isinstance(c.func, ast.Name) and c.func.id == "float" and c.args and isinstance(c.args[0], ast.Name) and c.args[0].id == val]
-    guarded = any(isinstance(t, ast.Try) and any(x is c for bb in t.body for x in ast.walk(bb)) and any(h.type is None or {"OverflowError", "ArithmeticError", "Exception"} & {x.id for x in ast.walk(h.type) if isinstance(x, ast.Name)} for h in t.handlers) for b in branch.body for t in ast.walk(b) for c in conv)
-    if not accepts_int:
-        rep.ok(rule, cons, "integers are not accepted as floats", f"{v.path}:{branch.lineno}")
-    elif conv and guarded:
-        rep.ok(rule, cons, "float(value) under `except OverflowError`", f"{v.path}:{branch.lineno}")
+
+    def range_checked(stmts):
+        """Is there a float() conversion under `except OverflowError` in these statements, or in a helper method they call?"""
+        def local(nodes):
+            for t in nodes:
+                if isinstance(t, ast.Try) and any(isinstance(c, ast.Call) and isinstance(c.func, ast.Name) and c.func.id == "float" for b in t.body for c in ast.walk(b)) and any(h.type is None or {"OverflowError", "ArithmeticError", "Exception"} & {x.id for x in ast.walk(h.type) if isinstance(x, ast.Name)} for h in t.handlers):
+                    return True
+            return False
+        nodes = [n for s_ in stmts for n in ast.walk(s_)]
+        if local(nodes):
+            return True
+        for c in nodes:
+            if isinstance(c, ast.Call) and isinstance(c.func, ast.Attribute) and isinstance(c.func.value, ast.Name) and c.func.value.id == v.params[0]:
+                h = ix.find_method(P, c.func.attr)
+                if h is not None and local(list(ast.walk(h.node))):
+                    return True
+        return False
+    # the sub-branches of the FLOAT case
+    sub = branch.body[0] if branch.body and isinstance(branch.body[0], ast.If) else None
+    n = 0
+    ints_done = False
+    while isinstance(sub, ast.If):
+        t = ast.unparse(sub.test)
+        is_int_case = "isinstance" in t and ("Integral" in t or "Real" in t or "Number" in t or "int" in t.replace("isinstance", "")) and "AnnotatedValue" not in t
+        if is_int_case and ints_done and "Integral" not in t and "int" not in t.replace("isinstance", ""):
+            is_int_case = False  # integers were dealt with by an earlier branch: only floats arrive here
+        if is_int_case and ("Integral" in t or "int" in t.replace("isinstance", "")) and "AnnotatedValue" not in t:
+            ints_done = True
+        is_const_case = "AnnotatedValue" in t and "isinstance" in t
+        if is_int_case and "float" not in t and "Real" not in t:
+            n += 1
+            cons = construct_of(v, "float-range")
+            if range_checked(sub.body):
+                rep.ok(rule, cons, "an integer is converted under `except OverflowError`", f"{v.path}:{sub.lineno}")
+            else:
+                rep.violation(rule, cons, "any integer is accepted for a float parameter: `Rz r[0] 1000..0` (310 digits; longer than a float can hold, shorter than the literal limit) parses and then fails with OverflowError inside the gate's unitary", f"{v.path}:{sub.lineno}", witness="Rz r[0] 1" + "0" * 20 + "...")
+        elif is_int_case:
+            # int and float accepted together
+            n += 1
+            cons = construct_of(v, "float-range")
+            if range_checked(sub.body):
+                rep.ok(rule, cons, "numbers are converted under `except OverflowError`", f"{v.path}:{sub.lineno}")
+            else:
+                rep.violation(rule, cons, "any integer is accepted for a float parameter: a 310-digit integer angle parses and then fails with OverflowError inside the gate's unitary", f"{v.path}:{sub.lineno}")
+        if is_const_case:
+            n += 1
+            cons = construct_of(v, "float-range-of-constants")
+            if range_checked(sub.body):
+                rep.ok(rule, cons, "the number a constant stands for is range-checked too", f"{v.path}:{sub.lineno}")
+            else:
+                rep.violation(rule, cons, "a constant is accepted for a float parameter whatever its value: `let b <401 digits>; Rz q[0] b` parses, and the same call is refused once the let is substituted (and fails in the emulator otherwise)", f"{v.path}:{sub.lineno}", witness="let b 1000..0 (401 digits); Rz q[0] b")
+        sub = sub.orelse[0] if len(sub.orelse) == 1 and isinstance(sub.orelse[0], ast.If) else None
+    if n == 0:
+        rep.undecided(rule, construct_of(v, "float-range"), "no integer case in the FLOAT branch", f"{v.path}:{branch.lineno}")
+
+
+def number_types_abstract(ctx, rep, rule):
+    ix = ctx.ix
+    v = _method(ix, "jaqalpaq.core.parameter.Parameter", "validate")
+    rep.rule(rule, "Parameter.validate recognises numbers by the abstract types (numbers.Integral / numbers.Real), like Register, NamedQubit, as_integer and the generator do -- not by the builtin classes only", floor=2)
+    val = v.params[1]
+    n = 0
+    for c in ast.walk(v.node):
+        if isinstance(c, ast.Call) and isinstance(c.func, ast.Name) and c.func.id == "isinstance" and len(c.args) == 2 and isinstance(c.args[0], ast.Name) and c.args[0].id == val:
+            kinds = {ast.unparse(x).split(".")[-1] for x in (c.args[1].elts if isinstance(c.args[1], ast.Tuple) else [c.args[1]])}
+            if kinds & {"int", "float"}:
+                n += 1
+                rep.violation(rule, construct_of(v, f"number-test:{'-'.join(sorted(kinds))}"), f"`{ast.unparse(c)}` misses numbers of other types: `Rz q[0] numpy.float32(0.5)` and a stretch factor or integer argument taken from a numpy array are refused (`parameter k=3 does not have type ParamType.INT`) although sizes, indices, lets, overrides and the generator take them", f"{v.path}:{c.lineno}")
+            elif kinds & {"Integral", "Real", "Number"}:
+                n += 1
+                rep.ok(rule, construct_of(v, f"number-test:{'-'.join(sorted(kinds))}"), f"`{ast.unparse(c)}`", f"{v.path}:{c.lineno}")
+    if n < 2:
+        raise AnalysisError(f"{rule}: only {n} number tests in Parameter.validate")
+
+
+def repeated_parameter_names(ctx, rep, rule):
+    ix = ctx.ix
+    AG = "jaqalpaq.core.gatedef.AbstractGate"
+    init = _method(ix, AG, "__init__")
+    cp = _method(ix, AG, "copy")
+    rep.rule(rule, "a gate definition whose parameter names repeat is refused when it is made or copied with new parameters (arguments are bound by name: no call could satisfy it)", floor=2)
+    for m, what in ((init, "made"), (cp, "copied")):
+        cons = construct_of(m, "unique-names")
+        ok = False
+        for c in ast.walk(m.node):
+            if isinstance(c, ast.Call) and isinstance(c.func, ast.Name):
+                r = ix.resolve_name(m.module, c.func.id, m)
+                h = ix.functions.get(r[1]) if r and r[0] == "func" else None
+                if h is not None and any(isinstance(x, ast.Raise) for x in ast.walk(h.node)) and "name" in ast.unparse(h.node) and ("set(" in ast.unparse(h.node) or "Counter" in ast.unparse(h.node)):
+                    ok = True
+        if not ok:
+            ok = any(isinstance(x, ast.Raise) for x in ast.walk(m.node)) and "set(" in ast.unparse(m.node)
+        if ok:
+            rep.ok(rule, cons, f"names are compared when a definition is {what}", m.loc())
+        else:
+            rep.violation(rule, cons, f"a definition can be {what} with two parameters of one name: GateDefinition('MS', [q, q]) is accepted, and MS, I_MS and MS_stretched all refuse every call (`Bad argument count: expected 2, found 1`)", m.loc())
+
+
+def emulator_missing_gate(ctx, rep, rule):
+    ix = ctx.ix
+    ms = _method(ix, "jaqalpaq.emulator.unitary.UnitarySerializedEmulator", "_make_subcircuit")
+    rep.rule(rule, "a statement whose gate is not in the native gate table is passed over only if its own definition is a busy one (a bounding gate made up by expand_subcircuits); any other unknown gate is refused", floor=1)
+    cons = construct_of(ms, "gate-not-in-table")
+    hs = [h for t in ast.walk(ms.node) if isinstance(t, ast.Try) for h in t.handlers if h.type is not None and "KeyError" in ast.unparse(h.type)]
+    if not hs:
+        rep.undecided(rule, cons, "no KeyError handler around the gate table look-up", ms.loc())
+        return
+    h = hs[0]
+    raises = any(isinstance(r, ast.Raise) for r in ast.walk(h))
+    skips = [c for c in ast.walk(h) if isinstance(c, ast.Continue)]
+    if not raises:
+        rep.violation(rule, cons, "an unknown gate is skipped silently", f"{ms.path}:{h.lineno}")
+    elif not skips:
+        rep.violation(rule, cons, "every statement is looked up by name: `register q[1]; subcircuit { Px q[0] }` with a gate set that has no prepare_all/measure_all parses (expand_subcircuits makes up busy bounding gates, and parse_jaqal_output_list handles the circuit) but run_jaqal_circuit refuses it with `No native gate prepare_all to emulate`", f"{ms.path}:{h.lineno}")
     else:
-        rep.violation(rule, cons, "any integer is accepted for a float parameter: `Rz r[0] 1000..0` (310 digits; longer than a float can hold, shorter than the literal limit) parses and then fails with OverflowError inside the gate's unitary", f"{v.path}:{branch.lineno}", witness="Rz r[0] 1" + "0" * 20 + "...")
+        guarded = all(any(taken and "Busy" in ast.unparse(t) for t, taken in _enclosing_ifs(ms.node, c)) for c in skips)
+        if guarded:
+            rep.ok(rule, cons, "skipped only for busy definitions; refused otherwise", f"{ms.path}:{h.lineno}")
+        else:
+            rep.violation(rule, cons, "a statement with an unknown gate is skipped whatever its definition: a misspelt gate is emulated as the identity", f"{ms.path}:{h.lineno}")
+
+
+def wraparound_test(ctx, rep, rule):
+    ix = ctx.ix
+    vb = _method(ix, "jaqalpaq.core.algorithm.walkers.DiscoverSubcircuits", "visit_BlockStatement")
+    rep.rule(rule, "the refusal `measure_all -> prepare_all in a loop` asks whether the trace that was open at entry was MEASURED in the body (its end is set), not whether any trace was completed there: a prepare_all superseded by one in the body is legal", floor=1)
+    cons = construct_of(vb, "wrap-around")
+    hit = None
+    for r in ast.walk(vb.node):
+        if isinstance(r, ast.Raise):
+            for t, taken in _enclosing_ifs(vb.node, r):
+                if taken and "had_started" in ast.unparse(t):
+                    hit = t
+    if hit is None:
+        rep.undecided(rule, cons, "no refusal depending on had_started", vb.loc())
+        return
+    src = ast.unparse(hit)
+    if ".end" in src and "open_at_entry" in src:
+        ok = any(isinstance(c, ast.Compare) and ".end" in ast.unparse(c.left) and isinstance(c.ops[0], ast.IsNot) for c in ast.walk(hit))
+        if ok:
+            rep.ok(rule, cons, f"`{src[:80]}`", f"{vb.path}:{hit.lineno}")
+        else:
+            rep.violation(rule, cons, f"`{src[:90]}` has the wrong sense", f"{vb.path}:{hit.lineno}")
+    elif "len(" in src and "subcircuits" in src:
+        rep.violation(rule, cons, f"`{src[:90]}` fires when ANY trace was completed in the body: `prepare_all; loop 2 {{ prepare_all; measure_all }}` (the first prepare_all is superseded, nothing wraps around) is refused although the same statements without the loop, with `loop 1`, or entirely inside the loop are executed", f"{vb.path}:{hit.lineno}", witness="prepare_all; loop 2 { subcircuit {} }")
+    else:
+        rep.undecided(rule, cons, f"`{src[:80]}`", f"{vb.path}:{hit.lineno}")
+
+
+def made_up_bounding_busy(ctx, rep, rule):
+    ix = ctx.ix
+    gd = _method(ix, "jaqalpaq.core.circuitbuilder.Builder", "get_gate_definition")
+    rep.rule(rule, "without a gate set the definitions made up for prepare_all and measure_all are busy ones (they act on every qubit, like the native gates they stand for and like the ones expand_subcircuits makes up)", floor=1)
+    cons = construct_of(gd, "made-up-bounding-gates")
+    made = [c for c in ast.walk(gd.node) if isinstance(c, ast.Call) and isinstance(c.func, ast.Name) and c.func.id.endswith("GateDefinition")]
+    busy = [c for c in made if c.func.id == "BusyGateDefinition"]
+    names = any("prepare_all" in ast.unparse(t) and "measure_all" in ast.unparse(t) for c in busy for t, taken in _enclosing_ifs(gd.node, c) if taken)
+    if busy and names:
+        rep.ok(rule, cons, "BusyGateDefinition for the two names", gd.loc())
+    else:
+        rep.violation(rule, cons, "every unknown name gets a plain definition: `prepare_all; Px q[0]; measure_all` parsed without a gate set uses qubit 0 only, while the same program written `subcircuit { Px q[0] }`, its expand_subcircuits form, and the text parsed with a gate set use every qubit; writing the expanded circuit out and parsing it again flips the answer", gd.loc(), witness="parse_jaqal_string('register q[3]; prepare_all; Px q[0]; measure_all', autoload_pulses=False)")
+
+
+def parameter_constant_symmetry(ctx, rep, rule):
+    ix = ctx.ix
+    av = _method(ix, "jaqalpaq.core.parameter.AnnotatedValue", "__eq__")
+    ce = ix.find_method("jaqalpaq.core.constant.Constant", "__eq__")
+    rep.rule(rule, "equality between a parameter and a constant is symmetric: Constant.__eq__ needs a `.value` on the other side, so AnnotatedValue.__eq__ answers False for an operand that has one", floor=1)
+    cons = construct_of(av, "constant-operand")
+    needs_value = ce is not None and ce.cls.endswith("Constant") and any(isinstance(a, ast.Attribute) and a.attr in ("value", "_value") and isinstance(a.value, ast.Name) and a.value.id == ce.params[1] for a in ast.walk(ce.node))
+    if not needs_value:
+        rep.ok(rule, cons, "Constant.__eq__ does not ask for a value", av.loc())
+        return
+    othern = av.params[1]
+    handles = any(isinstance(st, ast.If) and ("value" in ast.unparse(st.test) or "Constant" in ast.unparse(st.test)) and othern in _names(st.test) and any(isinstance(r, ast.Return) and isinstance(r.value, ast.Constant) and r.value.value is False for r in st.body) for st in ast.walk(av.node))
+    typed = any(isinstance(c, ast.Compare) and "type(" in ast.unparse(c) for c in ast.walk(av.node))
+    if handles or typed:
+        rep.ok(rule, cons, "an operand with a value (a constant) never equals a parameter", av.loc())
+    else:
+        rep.violation(rule, cons, "AnnotatedValue.__eq__ compares name and kind only, so Parameter('a', INT) == Constant('a', 1) while Constant('a', 1) != Parameter('a', INT): two circuits compare equal in one direction only", av.loc(), witness="macro m a { G r[0] a } with a declared INT, against the same text using the let a")
 
 
 EXTRA["C16"].append((egg_search_total, "C16.26"))
@@ -1374,11 +1545,42 @@ def discovery_more(ctx, rep, rule):
         rep.ok(rule, cons, f"{nread} reads of trace fields, all declared", ix.classes[TV].loc())
 
 
-def small_polarities(ctx, rep, rule):
+PART_TEXT = {
+    "marker": "the marker on made-up gate definitions is True",
+    "relinker": "the builder's relinker compares definitions by identity, for macros and native gates alike",
+    "contains": "contains_subcircuit answers `is a subcircuit or contains one`, with False as default and positive type tests",
+    "constint": "int() of a constant recurses exactly when its value is a constant",
+    "isnan": "every isnan() in gate equality is applied to a value known to be a float",
+    "stretch": "stretched_gates skips what it HAS generated and renames while the name IS taken",
+    "total": "the total error of a distribution is |total - 1|",
+    "injected": "an injected gate wins over an imported one of the same name",
+}
+
+
+def small_polarities(ctx, rep, rule, parts):
     """Polarity of tests that earlier rules recognise by their operands."""
     ix = ctx.ix
-    rep.rule(rule, "polarity and completeness of small guards: the made-up marker is True; the relinker's macro branch is the one taken for macros; contains_subcircuit answers `is a subcircuit or contains one` with False as default; int() of a chained constant recurses for constants; every isnan() is applied to a float; stretched_gates skips what it HAS generated and renames while the name IS taken; the total error is |total - 1|; an injected gate wins over an imported one of the same name", floor=6)
-    # made_up marker value
+    rep.rule(rule, "; ".join(PART_TEXT[p_] for p_ in parts), floor=1)
+    if "marker" in parts:
+        _sp_marker(ctx, rep, rule)
+    if "relinker" in parts:
+        _sp_relinker(ctx, rep, rule)
+    if "contains" in parts:
+        _sp_contains(ctx, rep, rule)
+    if "constint" in parts:
+        _sp_constint(ctx, rep, rule)
+    if "isnan" in parts:
+        _sp_isnan(ctx, rep, rule)
+    if "stretch" in parts:
+        _sp_stretch(ctx, rep, rule)
+    if "total" in parts:
+        _sp_total(ctx, rep, rule)
+    if "injected" in parts:
+        _sp_injected(ctx, rep, rule)
+
+
+def _sp_marker(ctx, rep, rule):
+    ix = ctx.ix
     gd = _method(ix, "jaqalpaq.core.circuitbuilder.Builder", "get_gate_definition")
     for a in ast.walk(gd.node):
         if isinstance(a, ast.Assign) and any(isinstance(t, ast.Attribute) and t.attr == "made_up" for t in a.targets):
@@ -1387,20 +1589,25 @@ def small_polarities(ctx, rep, rule):
                 rep.ok(rule, cons, "made_up = True", f"{gd.path}:{a.lineno}")
             else:
                 rep.violation(rule, cons, f"`{ast.unparse(a)}`: the marker never marks, so unknown gates in pre-built statements are accepted again", f"{gd.path}:{a.lineno}")
-    # relinker macro branch polarity
+
+
+def _sp_relinker(ctx, rep, rule):
+    ix = ctx.ix
     vg = _method(ix, "jaqalpaq.core.circuitbuilder.RebuildMacroInContextVisitor", "visit_GateStatement")
-    for st in iter_stmts(vg.body):
-        if isinstance(st, ast.If) and "isinstance" in ast.unparse(st.test) and "Macro" in ast.unparse(st.test):
-            cons = construct_of(vg, "macro-branch")
-            neg = isinstance(st.test, ast.UnaryOp)
-            macro_branch = st.orelse if neg else st.body
-            uses_eq = any(isinstance(c, ast.Compare) and isinstance(c.ops[0], ast.Eq) and ".gate_def" in ast.unparse(c) for b in macro_branch for c in ast.walk(b))
-            uses_is = any(isinstance(c, ast.Compare) and isinstance(c.ops[0], ast.Is) and ".gate_def" in ast.unparse(c) for b in macro_branch for c in ast.walk(b))
-            if uses_is and not uses_eq:
-                rep.violation(rule, cons, f"`if {ast.unparse(st.test)}`: native definitions are compared by equality (a made-up prepare_all equals the busy one and stays) and macros by identity", f"{vg.path}:{st.lineno}")
-            else:
-                rep.ok(rule, cons, "macros in the macro branch", f"{vg.path}:{st.lineno}")
-    # contains_subcircuit
+    cons = construct_of(vg, "definition-identity")
+    cmps = [c for c in ast.walk(vg.node) if isinstance(c, ast.Compare) and ".gate_def" in ast.unparse(c) and len(c.ops) == 1 and not (isinstance(c.comparators[0], ast.Constant))]
+    if not cmps:
+        rep.undecided(rule, cons, "no comparison of definitions", vg.loc())
+    else:
+        by_eq = [c for c in cmps if isinstance(c.ops[0], (ast.Eq, ast.NotEq))]
+        if by_eq:
+            rep.violation(rule, cons, f"`{ast.unparse(by_eq[0])}` compares definitions by equality: a macro built ahead of the circuit EQUALS its relinked version (Macro.__eq__ is structural and statements ignore their definitions), so a call made with the object that CircuitBuilder.macro() returned keeps the stale body, in which idle and busy gates are still made-up plain ones; a made-up prepare_all equals the busy one", f"{vg.path}:{by_eq[0].lineno}", witness="foo = b.macro('foo', ..); b.gate(foo(q[0], q[1]))")
+        else:
+            rep.ok(rule, cons, f"{len(cmps)} identity comparisons", vg.loc())
+
+
+def _sp_contains(ctx, rep, rule):
+    ix = ctx.ix
     cs = ix.functions.get("jaqalpaq.core.circuitbuilder.contains_subcircuit")
     if cs is not None:
         cons = construct_of(cs, "answer")
@@ -1421,7 +1628,10 @@ def small_polarities(ctx, rep, rule):
             rep.ok(rule, cons, "block: is one or contains one; default False", cs.loc())
         else:
             rep.violation(rule, cons, (why if not ok else "the default answer is not False" if not default_false else "a type test is negated") + ": calls of macros that contain a subcircuit are accepted inside subcircuits or parallel blocks again (or every macro call there is refused)", cs.loc())
-    # Constant.__int__ polarity
+
+
+def _sp_constint(ctx, rep, rule):
+    ix = ctx.ix
     ci = _method(ix, "jaqalpaq.core.constant.Constant", "__int__")
     for st in ast.walk(ci.node):
         if isinstance(st, ast.If) and "Constant" in ast.unparse(st.test) and "isinstance" in ast.unparse(st.test):
@@ -1430,7 +1640,10 @@ def small_polarities(ctx, rep, rule):
                 rep.ok(rule, cons, f"`{ast.unparse(st.test)}`", f"{ci.path}:{st.lineno}")
             else:
                 rep.violation(rule, cons, f"`{ast.unparse(st.test)}`: int() recurses on values that are not constants and refuses constants of constants", f"{ci.path}:{st.lineno}")
-    # isnan guarded
+
+
+def _sp_isnan(ctx, rep, rule):
+    ix = ctx.ix
     eq = _method(ix, "jaqalpaq.core.gate.GateStatement", "__eq__")
     for c in ast.walk(eq.node):
         if isinstance(c, ast.Call) and ast.unparse(c.func).endswith("isnan") and c.args and isinstance(c.args[0], ast.Name):
@@ -1443,7 +1656,10 @@ def small_polarities(ctx, rep, rule):
                 rep.ok(rule, cons, "after isinstance(.., float)", f"{eq.path}:{c.lineno}")
             else:
                 rep.violation(rule, cons, f"`{ast.unparse(c)}` is applied to an argument that need not be a float: comparing `Rz q[0] nan` with `Rz q[0] t` (a let) or with a qubit argument raises TypeError instead of answering False", f"{eq.path}:{c.lineno}")
-    # stretched_gates
+
+
+def _sp_stretch(ctx, rep, rule):
+    ix = ctx.ix
     sg = _func(ix, "jaqalpaq.core.stretch.stretched_gates")
     for st in ast.walk(sg.node):
         if isinstance(st, ast.If) and any(isinstance(s, ast.Continue) for s in st.body) and "new_gates" in ast.unparse(st.test):
@@ -1460,7 +1676,10 @@ def small_polarities(ctx, rep, rule):
                 rep.ok(rule, cons, f"`while {ast.unparse(st.test)[:60]}`", f"{sg.path}:{st.lineno}")
             else:
                 rep.violation(rule, cons, f"`while {ast.unparse(st.test)[:70]}` renames while some OTHER parameter has another name (always, for a gate with parameters: the loop never ends) and keeps a taken name", f"{sg.path}:{st.lineno}")
-    # total error
+
+
+def _sp_total(ctx, rep, rule):
+    ix = ctx.ix
     pi = _method(ix, "jaqalpaq.core.result.ProbabilisticSubcircuit", "__init__")
     te = [v for v in _local_defs(pi.node, "total_err") if not isinstance(v, ast.AugAssign)]
     if te:
@@ -1470,7 +1689,10 @@ def small_polarities(ctx, rep, rule):
             rep.ok(rule, cons, f"`{ast.unparse(te[0])}`", f"{pi.path}:{te[0].lineno}")
         else:
             rep.violation(rule, cons, f"`total_err = {ast.unparse(te[0])}` is not the distance of the total from one: every exact distribution has `error` 1 and is refused (RuntimeError)", f"{pi.path}:{te[0].lineno}")
-    # injected over imported
+
+
+def _sp_injected(ctx, rep, rule):
+    ix = ctx.ix
     ug = _method(ix, "jaqalpaq.core.usepulses.UsePulsesStatement", "update_gates")
     for st in ast.walk(ug.node):
         if isinstance(st, ast.If) and any(isinstance(s, ast.Continue) for s in st.body) and "inject_pulses" in ast.unparse(st.test):
@@ -1484,5 +1706,38 @@ def small_polarities(ctx, rep, rule):
 
 EXTRA["C13"].append((parallel_state_all_fields, "C13.21"))
 EXTRA["C08"].append((discovery_more, "C08.14"))
-for _p, _r in (("C14", "C14.15"), ("C13", "C13.22"), ("C01", "C01.15"), ("C06", "C06.19"), ("C20", "C20.13"), ("C18", "C18.15"), ("C15", "C15.16")):
-    EXTRA.setdefault(_p, []).append((small_polarities, _r))
+for _p, _r, _parts in (("C14", "C14.15", ("marker", "injected")), ("C13", "C13.22", ("relinker",)), ("C01", "C01.15", ("contains",)), ("C06", "C06.19", ("constint",)), ("C20", "C20.13", ("isnan",)), ("C18", "C18.15", ("stretch",)), ("C15", "C15.16", ("total",))):
+    EXTRA.setdefault(_p, []).append((small_polarities, _r, _parts))
+
+EXTRA["C18"].append((number_types_abstract, "C18.16"))
+EXTRA["C18"].append((repeated_parameter_names, "C18.17"))
+EXTRA["C08"].append((emulator_missing_gate, "C08.15"))
+EXTRA["C08"].append((wraparound_test, "C08.16"))
+EXTRA["C03"].append((emulator_missing_gate, "C03.10"))
+EXTRA["C13"].append((made_up_bounding_busy, "C13.23"))
+EXTRA["C20"].append((parameter_constant_symmetry, "C20.14"))
+
+
+def zero_step_unconditional(ctx, rep, rule):
+    ix = ctx.ix
+    ri = _method(ix, "jaqalpaq.core.register.Register", "__init__")
+    rep.rule(rule, "a literal slice step of zero is refused under a test of the step alone (not only in the branch taken when every bound and the source size are literal)", floor=1)
+    cons = construct_of(ri, "zero-step")
+    raises = [r for r in ast.walk(ri.node) if isinstance(r, ast.Raise) and "step" in ast.unparse(r).lower() and "zero" in ast.unparse(r).lower()]
+    if not raises:
+        rep.violation(rule, cons, "a slice step of zero is never refused", ri.loc())
+        return
+    free = False
+    for r in raises:
+        ctrl = [t for t, taken in _enclosing_ifs(ri.node, r)]
+        others = [t for t in ctrl if ("size" in ast.unparse(t) or "start" in ast.unparse(t) or "stop" in ast.unparse(t) or "alias_from" in ast.unparse(t))]
+        if not others:
+            free = True
+    if free:
+        rep.ok(rule, cons, "refused whatever the other bounds are", f"{ri.path}:{raises[0].lineno}")
+    else:
+        rep.violation(rule, cons, "the zero-step test sits in the branch for all-literal slices of a source of known size: `let n 4; register q[n]; map a q[0:2:0]` is accepted, the generator writes `map a q[0:2]` (it tests the step by truthiness), and the re-parsed alias has step 1", f"{ri.path}:{raises[0].lineno}", witness="let n 4; register q[n]; map a q[0:2:0]")
+
+
+EXTRA["C14"].append((zero_step_unconditional, "C14.16"))
+EXTRA["C01"].append((zero_step_unconditional, "C01.16"))
